@@ -164,7 +164,7 @@ def ev_A(c) -> R:
     for pi, pre in enumerate(COPY_PREFIXES):
         for hi, h in enumerate(HOLDERS):
             for yi, y in enumerate(YEARS):
-                if not full and (pi + hi + yi + c["seed"]) % 5 != 0:
+                if not full and (pi + hi + yi + c["seed"]) % 2 != 0:
                     continue
                 line = f"{pre} {y} {h}" if y else f"{pre} {h}"
                 jobs.append(("cop", line, line))
